@@ -281,6 +281,8 @@ class EvoWorklist(BaseWorklist):
         assert (
             len(set(lengths)) == 1
         ), f"Number of source/destination/volumes must be equal. They were {lengths}"
+        if np.any(volumes < 0):
+            raise ValueError(f"Volumes must be positive or zero. They were {volumes}")
         for labware, wells in ((source, source_wells), (destination, destination_wells)):
             unknown = [w for w in wells if not w in labware.indices]
             if unknown:
